@@ -11,7 +11,7 @@ SHARED = {"harness/lib.py", "harness/main.py", "harness/coqterm.py", "harness/ge
           "known_findings.txt", "notes/HOWTO_property.md", "notes/merge.py", "properties.jsonl", ".gitignore",
           "coq/_CoqProject"}
 SKIP_EXT = (".vo", ".vok", ".vos", ".glob", ".aux", ".pyc", ".cache")
-SKIP_DIR = ("coq/cases", "replays", "evidence", "__pycache__", ".git")
+SKIP_DIR = ("coq/cases", "replays", "evidence", "__pycache__", ".git", "coq_other", "evidence_other", "replays_other")
 
 
 def walk(root):
